@@ -123,6 +123,9 @@ func main() {
 		for name, f := range p.files {
 			var b strings.Builder
 			for _, d := range f.Decls {
+				if gd, isGen := d.(*ast.GenDecl); isGen && gd.Tok == token.IMPORT {
+					continue // imports say nothing about behaviour that the functions do not say
+				}
 				if _, ok := d.(*ast.FuncDecl); !ok {
 					b.WriteString(p.src(d))
 					b.WriteString("\n")
@@ -140,5 +143,6 @@ func main() {
 		genConsts(p, *out)
 		genSkel(p, *out)
 		genApi(p, *out)
+		genEffects(p, *out)
 	}
 }
